@@ -170,6 +170,24 @@ def check_one(job):
             d = re.sub(r"event \d+: ", "", f.detail)
             d = re.sub(r"\d+", "N", d)[:50]
             out["sigs"].append((f"{f.kind}:{name}:{tclass}:{'filter' if flt else 'nofilter'}:{d}", f.detail, oi))
+    # the bundle path (output_dependencies: the text goes through the procedure bank once more) keeps every line and label
+    if not missing and (hollow or (name in ("GOTO", "GOSUB", "ON-GOTO", "THEN-ELSE") and at == 20)):
+        for flt in (False, True):
+            oi = [i for i, o in enumerate(OPTS) if o["add_suffix"] and o["filter_unused_linenum"] == flt][0]
+            if oi not in texts:
+                continue
+            ob = classify(src + "\n", plain=False, filter_unused_linenum=flt, add_suffix=True, add_standard_prefix=False, skip_procedure_headers=False, output_dependencies=True, procname="prog")
+            if ob[0] != "ok":
+                out["sigs"].append((f"bundle:{ob[0]}:{name}:{tclass}", f"with dependencies: {ob}", oi))
+                continue
+            marker = "procedure prog\n"
+            k = ob[1].rfind(marker)
+            part = ob[1][k + len(marker):] if k >= 0 else ob[1]
+            if part.rstrip() != texts[oi].rstrip():
+                a, b = part.rstrip().split("\n"), texts[oi].rstrip().split("\n")
+                d = [(x, y) for x, y in itertools.zip_longest(a, b) if x != y][:1]
+                lost = sorted(set(labels_of(texts[oi])) - set(labels_of(part)))
+                out["sigs"].append((f"bundle-changes-program:{name}:{tclass}:{'filter' if flt else 'nofilter'}:labels-lost={lost}", f"program part of the bundle differs from the output without dependencies: {d}", oi))
     # filtering removes labels only
     for s in (False, True):
         a = [i for i, o in enumerate(OPTS) if o["add_suffix"] == s and not o["filter_unused_linenum"]][0]
